@@ -159,6 +159,49 @@ def entry_variant(ctx, spec, base):
             ctx.violation(key, f"entry-points {s['entry']} ({runner}): {what}", case)
 
 
+def cached_gate_loops(ctx):
+    """A loop whose gate is served from a cache: the decision a hit restores is the gate's most recent decision like
+    any other, in particular the decision to route NOWHERE (None without a fallback) or to END. Histories of runs on
+    one backend - the first run stores the exit decision, a later run meets it again at the end of its loop - are
+    compared run by run with the same run without a cache (values and the invocations of the body nodes)."""
+    from hypergraph import InMemoryCache
+
+    rng = ctx.rng
+    for N in (1, 2, 3):
+        for exit_kind in ("none", "end", "node"):
+            for body_cached in (False, True):
+                body = {"k": "fn", "name": "b0", "params": [{"n": "count"}], "outs": ["count"], "beh": ["inc", "count"]}
+                if body_cached:
+                    body["cache"] = True
+                targets = {"none": ["b0", "idle"], "end": ["b0", "END"], "node": ["b0", "fin"]}[exit_kind]
+                gate = {"k": "route", "name": "gate", "params": [{"n": "count"}], "targets": targets, "cond": ["lt", "count", N], "then": "b0", "else": {"none": None, "end": "END", "node": "fin"}[exit_kind], "open": rng.random() < 0.5, "cache": True}
+                nodes = [body, gate]
+                if exit_kind == "none":
+                    nodes.append({"k": "fn", "name": "idle", "params": [{"n": "count"}], "outs": ["idled"], "beh": ["mark", "count", "idle"]})
+                if exit_kind == "node":
+                    nodes.append({"k": "fn", "name": "fin", "params": [{"n": "count"}], "outs": ["result"], "beh": ["mark", "count", "done"]})
+                rng.shuffle(nodes)
+                spec = {"name": "cloop", "nodes": nodes, "bind": {}, "selectors": []}
+                history = [N, 0] + [rng.randint(0, N) for _ in range(2)]
+                for runner in ("sync", "async"):
+                    cache = InMemoryCache()
+                    for step, c0 in enumerate(history):
+                        s_ = core.with_async(spec, runner == "async", rng)
+                        sched = rt.Sched(default="rand", rng=rng) if runner == "async" else None
+                        o = core.execute(s_, {"count": c0}, runner, sched=sched, cache=cache, max_iterations=60)
+                        u = core.execute(s_, {"count": c0}, runner, max_iterations=60)
+                        ctx.obs["cached_gate_loop_runs"] += 1
+                        case = {"spec": spec, "inputs": {"count": c0}, "runner": runner, "variant": f"cached-gate-loop step {step} of {history}"}
+                        if o.deadlock or o.inconclusive or u.deadlock or u.inconclusive:
+                            ctx.inconc(o.inconclusive or u.inconclusive or "deadlock")
+                            continue
+                        body_calls = lambda x: sorted((e[1], repr(e[2])) for e in x.rec.ev if e[0] == "enter" and not e[1].endswith("/gate") and not (body_cached and e[1].endswith("/b0")))  # noqa: E731
+                        if (o.status, o.values) != (u.status, u.values) or body_calls(o) != body_calls(u):
+                            ctx.violation("C03:cached-gate-run-differs", f"{runner}: run {step} (count={c0}) of history {history} on one cache: {o.status} {core.short(o.values)} with body invocations {body_calls(o)[:6]}; without a cache {u.status} {core.short(u.values)} {body_calls(u)[:6]}", case)
+                            break
+                ctx.case({"cached-gate-loop": N, "exit": exit_kind, "body_cached": body_cached}, True)
+
+
 def run(ctx):
     n = 60 if ctx.tier == "quick" else 1300
     if ctx.replay:
@@ -167,6 +210,8 @@ def run(ctx):
         ctx.case("r1")
         ctx.case("r2")
         return
+    if ctx.shard[0] == 0:
+        cached_gate_loops(ctx)
     # directed part: every loop template (gates with and without wait_for, exits, nested, two-signal gates ...)
     sysn = 0
     for N in (1, 3) if ctx.tier == "quick" else (0, 1, 2, 3, 5):
